@@ -1192,21 +1192,26 @@ nni_http_set_uri(nng_http *conn, const char *uri, const char *query)
 		// no change, do nothing
 		return (NNG_OK);
 	}
-	if (conn->uri != NULL && conn->uri != conn->ubuf) {
-		nni_strfree(conn->uri);
-	}
-
 	// fast path, small size URI fits in our buffer
 	if (needed < sizeof(conn->ubuf)) {
+		if (conn->uri != NULL && conn->uri != conn->ubuf) {
+			nni_strfree(conn->uri);
+		}
 		snprintf(conn->ubuf, sizeof(conn->ubuf), fmt, uri, query);
 		conn->uri = conn->ubuf;
 		return (NNG_OK);
 	}
 
-	// too big, we have to allocate it (slow path)
-	if (nni_asprintf(&conn->uri, fmt, uri, query) != 0) {
+	// too big, we have to allocate it (slow path); the old URI is
+	// only released once the new one exists.
+	char *newuri;
+	if (nni_asprintf(&newuri, fmt, uri, query) != 0) {
 		return (NNG_ENOMEM);
 	}
+	if (conn->uri != NULL && conn->uri != conn->ubuf) {
+		nni_strfree(conn->uri);
+	}
+	conn->uri = newuri;
 	return (NNG_OK);
 }
 
